@@ -2,5 +2,5 @@ SPECIFICATION Spec
 CHECK_DEADLOCK FALSE
 INVARIANTS
   WitnessOK DecodeOK OpcodesOK OperandsOK JumpTargetsOK LnotabOK
-  NoUnderflow DepthOK BlocksBalanced BlockLevelsOK BlockDepthOK InRange EndsInReturn PhaseKnown
+  NoUnderflow DepthOK FuncOperandsOK BlocksBalanced BlockLevelsOK BlockDepthOK InRange EndsInReturn PhaseKnown
   EmitReach
